@@ -133,8 +133,41 @@ func registerTaint(reg func(string, intrinsic)) {
 		return len(els)
 	}
 	reg("crypto/rand.Read", func(in *Interp, fn *ssa.Function, a []Value) Value {
+		// a harness may replace crypto/rand.Reader (e.g. by a reader that fails): Read
+		// then goes through that reader, as io.ReadFull(Reader, b) does for one call
+		if g, ok := fn.Pkg.Members["Reader"].(*ssa.Global); ok {
+			if iv, ok := in.loadLoc(in.globalLoc(g)).(IfaceV); ok && iv.T != nil {
+				isOS := false
+				if pt, ok := iv.T.(*types.Pointer); ok {
+					if nt, ok := pt.Elem().(*types.Named); ok && nt.Obj().Name() == "reader" && nt.Obj().Pkg() != nil && nt.Obj().Pkg().Path() == "crypto/rand" {
+						isOS = true
+					}
+				}
+				if !isOS {
+					it := g.Type().(*types.Pointer).Elem().Underlying().(*types.Interface)
+					in.ex.noteStub("crypto/rand.Read with a harness-replaced Reader = one Read call of that reader")
+					return in.invoke(iv, it.Method(0), []Value{a[0]})
+				}
+			}
+		}
 		n := fill(in, a[0], "Read")
 		return Tuple{in.st.Const(64, uint64(n)), IfaceV{}}
+	})
+	// nd.CanDiffer(a, b []byte) bool: some values of the sources make the two byte strings differ
+	reg(ndPkg+".CanDiffer", func(in *Interp, fn *ssa.Function, a []Value) Value {
+		x, y := in.bytesOf(a[0]), in.bytesOf(a[1])
+		if len(x) != len(y) {
+			return in.st.True
+		}
+		diff := in.st.False
+		for i := range x {
+			diff = in.st.Or(diff, in.st.Not(in.st.Eq(x[i], y[i])))
+		}
+		r, _ := in.check(diff, false)
+		if r == Unknown {
+			in.ex.noteUnknown()
+		}
+		return in.st.Bool(r != Unsat)
 	})
 	reg("(*crypto/rand.reader).Read", func(in *Interp, fn *ssa.Function, a []Value) Value {
 		n := fill(in, a[1], "Reader.Read")
